@@ -156,7 +156,9 @@ func (m *Message) decodeAVPs(b []byte) error {
 			return fmt.Errorf("Failed to decode AVP: %s", err)
 		}
 		m.AVP = append(m.AVP, a)
-		n += a.Len()
+		// Advance by the declared length (padded), never by the
+		// size the decoded data type would serialize to.
+		n += (a.Length + 3) &^ 3
 	}
 	return nil
 }
